@@ -80,9 +80,44 @@ def path_op(ctx, job, box):
     return checks
 
 
+def path_seq(ctx, job, box):
+    """resize, then (after the embedder cleared the set) one more operation: the set stays inside the screen."""
+    cols, lines = job.params['geom']
+    second = job.params['second']
+    run = GridRun(ctx, box, cols, lines, cursor='pick', tabstops=0, dirty='none', titles='none', saved_columns='none',
+                  extra_mode=False)
+    L = run.L
+    from ..symstate import sym_opt_u32
+    run.call('resize', sym_opt_u32(ctx, 'rl', 1, lines + 1), sym_opt_u32(ctx, 'rc', 1, cols + 1))
+    if run.outcome == 'panic':
+        return run.panic_check('resize panics: %s' % run.msg)
+    # the embedder repaints and clears the set
+    mid = run.ses.screen
+    run.ses.screen = mid.with_field(L.screen['dirty'], MapV((), 'set'))
+    run.calls.append(('@raw', ['state', {'dirty': []}]))
+    if second == 'draw':
+        run.call('draw', Str.of('Z'))
+    else:
+        run.call(second, NONE, NONE) if second == 'erase_in_line' else run.call(second)
+    if run.outcome == 'panic':
+        return run.panic_check('%s after resize panics: %s' % (second, run.msg))
+    post = run.post
+    pl = bv(scr(L, post, 'lines'))
+    inside = True
+    for (k, p, v) in scr(L, post, 'dirty').e:
+        inside = bool_and(inside, bool_or(bool_not(p), z3.ULT(bv(k), pl)))
+    return run.check(inside, 'resize then %s: the dirty set names a row that is not on the screen' % second)
+
+
 def jobs(tier):
     gs = [(2, 1), (2, 2)] if tier == 'quick' else [(1, 1), (2, 1), (2, 2), (3, 2), (2, 3)]
     js = []
+    for second in ('draw', 'erase_in_line', 'linefeed'):
+        js.append(Job('seq/resize>%s/1x3' % second, path_seq, geom=(1, 3), second=second, prop=PROP))
+    # a region with the cursor outside it needs three rows
+    for spec in sweep.ops(tier, 1, 3):
+        if spec[1] in ('draw', 'index', 'linefeed', 'reverse_index') or spec[0] in ('cursor_down', 'cursor_up'):
+            js.append(Job('%s/1x3' % spec[0], path_op, opspec=spec, geom=(1, 3), prop=PROP))
     for g in gs:
         for spec in sweep.ops(tier, g[0], g[1]):
             if spec[1] == 'display':
